@@ -8,7 +8,7 @@ THEOREMS = ['C19_F38_refuted', 'C19_model_conditions_regenerated', 'C19_relex_sa
             'C19_recons_token_roundtrip_earley', 'C19_resolve_selector_exists', 'C19_join_spec', 'C19_relex',
             'C19_char_roundtrip_partial', 'C19_write_tokens_yield', 'C19_recons_token_sound', 'C19_recons_token_roundtrip_partial', 'C19_recons_token_roundtrip',
             'C19_match_exists', 'C19_matcher_accepts', 'C19_text', 'C19_H_relex_refuted', 'C19_example']
-GEN_DEPS = ['ReconsHoles']
+GEN_DEPS = ['ReconsHoles', 'LexerSortKey']
 RULE = ('seeded random grammars of the supported class (statement / expression / list / program skeletons and prefix-guarded '
         'random rules, with ?rule, _rule, !rule, aliases, * + ? [] operators, anonymous / named / _named string tokens, '
         'string literals shared between !rules (kept) and ordinary rules (filtered), operators factored into !op rules, '
